@@ -341,6 +341,6 @@ void accessor_case(Rng& rng)
     ++ctx().evaluations;
 }
 
-std::uint64_t vfh_num_cases(bool thorough) { return thorough ? 9000 : 300; }
+std::uint64_t vfh_num_cases(bool thorough) { return thorough ? 20000 : 300; }
 void vfh_run_case(std::uint64_t idx, Rng& rng) { if (idx % 10 == 9) accessor_case(rng); else run_case(rng, idx); }
 void vfh_selftest() {}
